@@ -185,11 +185,45 @@ class C16(core.Check):
         for i in range(nsh):
             yield dict(fam='shell', s=rnd.getrandbits(48), ctx=rnd.choice([-1, 0, 1, 2, 5]),
                        files=rnd.choice([1, 1, 2, 2, 3]), latex=rnd.random() < .3)
+        for i in range(nsh // 4):
+            yield dict(fam='shellml', s=rnd.getrandbits(48), ctx=rnd.choice([-1, 0, 2]))
+
+    def judge_shellml(self, case, cnt):
+        """multi-language run with the shell's own checks: several separately checked parts; every own message is
+        highlighted exactly once, at the isolated letter it is about (also in the second and later parts)"""
+        from .c20 import gen_shelltex, model_single
+        src, regions, eqs = gen_shelltex(random.Random(case['s']), cnt)
+        args = ['--output', 'html', '--context', str(case['ctx']), '--multi-language', '--language', 'en-GB',
+                '--packages', '*', '--single-letters', 'A|I||', 'f.tex']
+        r = shellrun.run_shell(args, {'f.tex': src}, {'mode': 'empty'}, workdir=self.tmp)
+        if r.timed_out:
+            return dict(ok=True, nt=False, key=None, cnt={'timeouts': 1}, obs=None, harness_error='watchdog')
+        detail = dict(src=src, stderr=r.err[-600:])
+        if r.rc != 0:
+            return dict(ok=False, nt=True, key='shellml:exit%s' % r.rc, cnt=cnt, obs=None, detail=detail)
+        rep = htmlreport.parse(r.out.decode('utf-8'))
+        want = collections.Counter()
+        for st, txt in regions:
+            for k in model_single(txt, 'A|I'):
+                o = st + k
+                want[(src.count('\n', 0, o) + 1, src[o])] += 1
+        got = collections.Counter()
+        for title, text, table, lineno, style in rep.spans:
+            if htmlreport.norm(title or '').startswith('Single letter detected.'):
+                got[(int(lineno.replace('\xa0', '').strip() or 0), htmlreport.norm(text))] += 1
+        if got != want:
+            detail.update(highlighted=sorted(got.elements()), expected=sorted(want.elements()))
+            return dict(ok=False, nt=True, key='shellml:own-message-highlight', cnt=cnt, obs=None, detail=detail)
+        cnt['shellml_reports'] = 1
+        cnt['shellml_own_messages'] = sum(want.values())
+        return dict(ok=True, nt=bool(want), key=None, cnt=cnt, obs=dict(src=tex.short(src, 150), letters=sum(want.values())))
 
     def judge(self, case):
         rnd = random.Random(case['s'])
         ctx = case['ctx'] if case['ctx'] >= 0 else int(1e8)
         cnt = {'fam_' + case['fam']: 1}
+        if case['fam'] == 'shellml':
+            return self.judge_shellml(case, cnt)
         if case['fam'] == 'direct':
             tex_ = gen_source(rnd)
             n = len(tex_)
@@ -315,7 +349,8 @@ class C16(core.Check):
     def quotas(self, tier):
         return {'fam_direct': 3000, 'rows_checked': 10000, 'matches_in_place': 3000, 'matches_in_overlap_list': 500,
                 'matches_split_over_lines': 100, 'whole_file_reports': 300, 'shell_reports': 60,
-                'shell_reports_fully_checked': 30, 'index_pages': 10, 'multi_file_reports_fully_checked': 20}
+                'shell_reports_fully_checked': 30, 'index_pages': 10, 'multi_file_reports_fully_checked': 20,
+                'shellml_reports': 40, 'shellml_own_messages': 100}
 
 
 CHECK = C16
